@@ -380,3 +380,26 @@ Print Assumptions binding_operands_in_table.
 (* the for-of example of above with its real locators (none on the stack) verifies; with a locator one environment too deep it does not *)
 Example ex_forof_locators_ok : verify3 ex_forof [None; None] 0 = true.
 Proof. vm_compute. reflexivity. Qed.
+
+(* ================= deepening round 3: no depth but the value stack may depend on the pending completion (DeepMerge_C03.v) ================= *)
+From C03 Require Import DeepMerge_C03.
+
+(* In a block accepted by verify4, any two executions reaching the same pc -- whatever completion (return / break / continue /
+   exception) is pending, i.e. across ALL selector valuations -- have the same environment depth and the same pending binding
+   references, and outside the drain loop of yield* the same iterator-stack length.  Only the value-stack depth may differ
+   (verify2_merge_agreement bounds that per selector valuation). *)
+Theorem nonstack_depths_agree_at_merges : forall cb scopes fp, verify4 cb scopes fp = true ->
+  forall pc d1 d2, reach2 cb pc d1 -> reach2 cb pc d2 ->
+  d_env (d2_base d1) = d_env (d2_base d2) /\ d_bind (d2_base d1) = d_bind (d2_base d2) /\
+  (in_drain cb pc = false -> d2_iter d1 = d2_iter d2).
+Proof. exact nonstack_agreement_lemma. Qed.
+Check nonstack_depths_agree_at_merges : forall cb scopes fp, verify4 cb scopes fp = true ->
+  forall pc d1 d2, reach2 cb pc d1 -> reach2 cb pc d2 ->
+  d_env (d2_base d1) = d_env (d2_base d2) /\ d_bind (d2_base d1) = d_bind (d2_base d2) /\
+  (in_drain cb pc = false -> d2_iter d1 = d2_iter d2).
+Print Assumptions nonstack_depths_agree_at_merges.
+
+Theorem verify4_implies_verify3 : forall cb scopes fp, verify4 cb scopes fp = true -> verify3 cb scopes fp = true.
+Proof. exact verify4_verify3. Qed.
+Check verify4_implies_verify3 : forall cb scopes fp, verify4 cb scopes fp = true -> verify3 cb scopes fp = true.
+Print Assumptions verify4_implies_verify3.
